@@ -136,14 +136,17 @@ CHECKS = {
         technique="Coq proof (clamp lemma, loop invariant) + scripted-policy tie + special-value oracle",
         ref="6 C10"),
     "C11": dict(
-        text="Coq: for backward Euler, any policies for which Fill(0) forgets and Factor overwrites L/U: Solve's status, "
+        text="Coq: for both integrators, any policies for which Fill(0) forgets and Factor overwrites L/U: Solve's status, "
              "final time, statistics, every policy call and the resulting concentrations are the same for two States "
-             "agreeing on the concentrations, whatever their Jacobian / L / U / Yn / forcing held "
-             "(C11_backward_euler_ignores_scratch, bisimulation over every history). Implementation: sequences of "
-             "problems on one State with every scratch member overwritten by NaN/1e300 before every Solve vs fresh "
-             "States, bit-for-bit comparison of results, statistics and rate constants, both integrators, 32 configurations.",
-        note="PARTIAL: the Rosenbrock analogue (stage vectors written before read) is validated bitwise, not yet a theorem.",
-        technique="Coq proof (bisimulation invariant) + poisoned-scratch bitwise oracle on the assembled solvers",
+             "agreeing on the concentrations, whatever their Jacobian / L / U / Yn(ew) / forcing / stage vectors / error vector "
+             "held (C11_backward_euler_ignores_scratch, C11_rosenbrock_ignores_scratch: bisimulation over every accept/reject "
+             "history; for Rosenbrock every stage vector is shown to be written before it is read, for any number of stages and "
+             "any new-function pattern). Implementation: sequences of problems on one State with every scratch member "
+             "overwritten by NaN/1e300 before every Solve vs fresh States, bit-for-bit comparison of results, statistics "
+             "and rate constants, both integrators, 32 configurations.",
+        note="The premises (Fill(0) forgets, Factor overwrites) are properties of the containers and of the LU decomposition "
+             "(C19, C03); the assembled solver's rate constants / conditions are inputs, not scratch.",
+        technique="Coq proof (bisimulation invariant, both integrators) + poisoned-scratch bitwise oracle on the assembled solvers",
         ref="6 C11"),
     "C12": dict(
         text="Coq (any arithmetic): forcing and Jacobian do not depend on the dense layout / vector length "
